@@ -115,7 +115,7 @@ let cmd_integrate line =
 
 (* ---------------------------------------------------------------- libm: the C library functions, as arguments of the models *)
 let w1 f = fun x -> Float64.of_float (f (Float64.to_float x))
-let libm : Float64.t libm = { lcos = w1 cos; lsin = w1 sin; ltan = w1 tan; lacos = w1 acos; llog = w1 log; lexp = w1 exp;
+let libm : Float64.t libm = { lcos = w1 cos; lsin = w1 sin; ltan = w1 tan; lacos = w1 acos; llog = w1 Stdlib.log; lexp = w1 exp;
   lcbrt = w1 Float.cbrt; lpow = (fun x y -> Float64.of_float (Float.pow (Float64.to_float x) (Float64.to_float y))) }
 
 (* ---------------------------------------------------------------- C04 cell cycle: elementary queries *)
@@ -302,6 +302,37 @@ let cmd_loop line =
      | Returned (st, iter, ops, l) -> show "RETURNED" st iter (List.length ops) (nat_to_int l)
      | Threw (st, iter, ops) -> show "THREW" st iter (List.length ops) 0
      | Diverged -> print_endline ("DIVERGED 0 0 0 0 |" ^ logs ^ " | |"))
+
+
+(* ---------------------------------------------------------------- one iteration as the composition of its phases (order generated from the source) *)
+let cmd_iteration line =
+  let t = Array.of_list (toks line) in
+  let pos = ref 0 in
+  let next () = let s = t.(!pos) in incr pos; s in
+  let ni () = int_of_string (next ()) in
+  let n0 = ni () in
+  let nit = ni () in
+  let inps = List.init nit (fun _ ->
+    let nd = ni () in let d = List.init nd (fun _ -> int_to_nat (ni ())) in
+    let nr = ni () in let r = List.init nr (fun _ -> int_to_n (ni ())) in
+    let tmp = ni () <> 0 in
+    { in_div = d; in_below = r; in_tmp = tmp }) in
+  if not iter_translation_ok then print_endline "UNTRANSLATED" else begin
+    let b = Buffer.create 1024 in
+    let s = ref (iter_init (int_to_nat n0)) in
+    List.iter (fun inp ->
+      let before = List.length !s.i_log in
+      let s' = iter_one inp !s in
+      let fresh = let rec take k l = if k <= 0 then [] else match l with [] -> [] | x :: r -> x :: take (k - 1) r in take (List.length s'.i_log - before) s'.i_log in
+      let ids l = String.concat "," (List.map (fun i -> string_of_int (n_to_int i)) l) in
+      let save = List.fold_left (fun acc e -> match e with ESave (_, l) -> Some l | _ -> acc) None fresh in
+      let stats = List.fold_left (fun acc e -> match e with EStats (_, l) -> Some l | _ -> acc) None fresh in
+      let uses_ok = List.for_all (fun e -> match e with EUse (_, _, cells) -> locals_ok cells O | _ -> true) fresh in
+      Buffer.add_string b (Printf.sprintf " | %s ; %s ; %s ; %d ; %d" (ids (List.map (fun c -> c.p_id) s'.i_pop.p_cells))
+        (match save with Some l -> ids l | None -> "-") (match stats with Some l -> ids l | None -> "-") (if uses_ok then 1 else 0) (n_to_int s'.i_pop.p_counter));
+      s := s') inps;
+    print_endline ("OK" ^ Buffer.contents b)
+  end
 
 (* ---------------------------------------------------------------- C08 population bookkeeping *)
 let cmd_population line =
@@ -595,7 +626,7 @@ let cmd_init line =
           print_endline (Printf.sprintf "CLOUD %d%s" (List.length out) (String.concat "" (List.map (fun o -> Printf.sprintf " %d" (idx o.op_pos)) out)))))
   | _ -> print_endline "?"
 
-let commands : (string * (string -> unit)) list ref = ref [ ("init", cmd_init); ("divider", cmd_divider); ("contact", cmd_contact); ("vtkread", cmd_vtkread); ("output", cmd_output); ("params", cmd_params); ("vtk", cmd_vtk); ("population", cmd_population); ("replay", cmd_replay); ("loop", cmd_loop); ("forces", cmd_forces); ("geometry", cmd_geometry); ("valid", cmd_valid); ("cellcycle", cmd_cellcycle); ("kernel", cmd_kernel); ("grid", cmd_grid); ("integrate", cmd_integrate) ]
+let commands : (string * (string -> unit)) list ref = ref [ ("init", cmd_init); ("divider", cmd_divider); ("contact", cmd_contact); ("vtkread", cmd_vtkread); ("output", cmd_output); ("params", cmd_params); ("vtk", cmd_vtk); ("population", cmd_population); ("replay", cmd_replay); ("loop", cmd_loop); ("iteration", cmd_iteration); ("forces", cmd_forces); ("geometry", cmd_geometry); ("valid", cmd_valid); ("cellcycle", cmd_cellcycle); ("kernel", cmd_kernel); ("grid", cmd_grid); ("integrate", cmd_integrate) ]
 
 let () =
   let cmd = Sys.argv.(1) in
